@@ -326,6 +326,9 @@ def run(ck):
     translated = {s["number"] for s in rep["settings"]}
     ok, info = ck.lean_obligations("DS.Props.C07")
     tie_ok, tie_info = ck.source_tie("DS.Props.SrcCif")   # the number reader the esd theorem is about
+    # row phase (26 setters, name table, site loop, aniso loop): theorems + source tie
+    okr, infor = ck.lean_obligations("DS.Props.C07Row")
+    tier_ok, tier_info = ck.source_tie("DS.Props.SrcCifRow", groups=("cifrow",))
     import diffpy.structure.spacegroups as S
     from diffpy.structure.parsers import getParser
     from diffpy.structure.spacegroups import GetSpaceGroup
@@ -400,6 +403,9 @@ def run(ck):
             meta.append((sg, cr, D, first[0]))
     nreuse = reuse_stream(ck, pick, allstrata, getParser)
     ck.coverage["evaluations"] += nreuse
+    # row phase: model vs reader before the expansion; wider when the source tie or the proofs are broken
+    row_words_stream(ck)
+    row_stream(ck, (500 if ck.tier == "quick" else 6000) * (1 if (tier_ok and okr) else 4))
     try:
         outs = common.driver(lines)
     except common.DriverBroken as e:
@@ -444,6 +450,14 @@ def run(ck):
                        "coordinates are printed with 10 decimals; comparison tolerance 2e-7"]
     ck.coverage["trusted_base"] += ["translate/tables.py", "harness/strata.py (generator only)", "CIF renderer in harness/c07.py"]
     ck.tie_verdict(tie_ok, tie_info, "p_cif.py leading_float")
+    ck.tie_verdict(tier_ok, tier_info, "p_cif.py atom-site setters, name table, site loop and aniso loop")
+    ck.assumptions += ["row phase: strings are ASCII (str.upper/lower/strip, \\d, [a-zA-Z] of the model); the number of a loop value is read by the harness with the CIF number grammar (the reader's own number reader is the cifnum stream)",
+                       "row phase: the lattice attributes the Cartesian setters and the isotropic tensor use are read from a Lattice object built from the printed cell (lattice construction is C10's subject)",
+                       "row phase: column-order independence holds only under DS.CifRow.RowShape; the four one-loop layouts outside it are the findings roworder:*"]
+    ck.coverage["trusted_base"] += ["translate/src_cifrow.py (transliteration of the setters, name table, _get_atom_setters; loop methods as text)", "row-block renderer in harness/c07.py"]
+    if not okr and not ck.violations:
+        ck.fail("lean-build", "Lean obligations of C07 (row phase) no longer check: %r" % infor["failed_modules"],
+                {"kind": "proof-obligation", "theorem": infor["failed_modules"], "errors": infor["errors"]}, no_failing_input=True)
     if not ok and not ck.violations:
         ck.fail("lean-build", "Lean obligations of C07 no longer check: %r" % info["failed_modules"],
                 {"kind": "proof-obligation", "theorem": info["failed_modules"], "errors": info["errors"]}, no_failing_input=True)
@@ -496,6 +510,47 @@ def replay(path):
     r = json.load(open(path))
     from diffpy.structure.parsers import getParser
 
+    if r.get("kind") in ("row", "roworder"):
+        kind, real = row_real(r["cif"])
+        print("first text:", kind, real if kind != "ok" else "%d atoms" % len(real))
+        if kind == "exc":
+            return 1
+        if "expected_kind" in r:
+            print("the row model says:", r["expected_kind"])
+            return 1 if kind != r["expected_kind"] else 0
+        bad = 0
+        if r.get("expected") is not None:
+            d = row_diff(real, r["expected"]) if kind == "ok" else "rejected"
+            print("against the row model:", d)
+            bad = bad or bool(d)
+        if r.get("other_cif"):
+            k2, real2 = row_real(r["other_cif"])
+            d = row_diff(real, real2, tol=1e-7) if (kind, k2) == ("ok", "ok") else "%s / %s" % (kind, k2)
+            print("against the other spelling:", d)
+            bad = bad or bool(d)
+        if r.get("observed") is not None and not r.get("expected") and not r.get("other_cif"):
+            bad = 1 if kind != "ok" else 0
+        return 1 if bad else 0
+    if r.get("kind") == "rowsymbol":
+        from diffpy.structure import Atom
+        from diffpy.structure.parsers.p_cif import P_cif
+
+        a = Atom()
+        P_cif._tr_atom_site_type_symbol(a, r["text"])
+        b = Atom()
+        P_cif._tr_atom_site_label(b, r["text"])
+        print("type_symbol -> %r, label -> %r / %r; expected %r" % (a.element, b.element, b.label, r["expected"]))
+        return 0 if (a.element, b.element, b.label) == (r["expected"], r["expected"], r["text"]) else 1
+    if r.get("kind") == "rowitem":
+        from diffpy.structure.parsers.p_cif import P_cif
+
+        class FakeLoop:
+            def keys(self):
+                return [r["name"]]
+
+        f = P_cif._get_atom_setters(FakeLoop())[0]
+        print("%r -> %s, expected %s" % (r["name"], f.__name__, r["expected"]))
+        return 0 if f.__name__ == r["expected"] or (f is P_cif._tr_atom_site_adp_type and r["expected"] == "_tr_atom_site_thermal_displace_type") else 1
     if r.get("kind") == "number":
         from diffpy.structure.parsers.p_cif import leading_float
 
@@ -963,23 +1018,87 @@ def row_layout_texts(key):
     return out
 
 
+def row_special_blocks(rng):
+    """deterministic families asked for explicitly: (b) Cartesian columns in every column order (z before x/y, ...) in oblique cells, against
+    the fractional spelling; (c) several sites at identical coordinates with different anisotropic tensors, aniso rows in every order, U and B.
+    Every block carries "group": all members of a group are spellings of the same atoms."""
+    import itertools
+    import numpy as np
+
+    out = []
+    for gi in range(3):
+        cell = [float("%.4f" % v) for v in (rng.uniform(3, 9), rng.uniform(3, 9), rng.uniform(3, 9), rng.uniform(65, 115), rng.uniform(65, 115), rng.uniform(65, 115))]
+        lat = row_lattice({"cell": cell})
+        atoms = []
+        for k in range(2):
+            rc = ["%.5f" % rng.uniform(-4, 9) for _ in range(3)]
+            atoms.append({"label": "%s%d" % (rng.choice(["O", "Fe", "C"]), k + 1), "type": rng.choice(["O2-", "Fe3+", "C"]), "rc": rc,
+                          "u": "%.4f" % rng.uniform(0.002, 0.05), "occ": "%.3f" % rng.uniform(0.2, 1.0)})
+        layouts = [lambda c: [c[0], "L", c[1], "T", "U", c[2], "O"], lambda c: ["L", c[0], c[1], c[2], "T", "U", "O"],
+                   lambda c: ["T", "U", c[0], "O", c[1], "L", c[2]]]
+        colname = {"L": "_atom_site_label", "T": "_atom_site_type_symbol", "U": "_atom_site_U_iso_or_equiv", "O": "_atom_site_occupancy"}
+        for pi, perm in enumerate(itertools.permutations("xyz")):
+            for spell in ("Cartn", "fract"):
+                if spell == "fract" and pi not in (0, 3):
+                    continue
+                lay = layouts[pi % 3](list(perm))
+                names = [colname.get(t, "_atom_site_%s_%s" % (spell, t)) for t in lay]
+                rows = []
+                for a in atoms:
+                    f = lat.fractional([float(v) for v in a["rc"]])
+                    val = {"L": a["label"], "T": a["type"], "U": a["u"], "O": a["occ"]}
+                    for ax, rcv, fv in zip("xyz", a["rc"], f):
+                        val[ax] = rcv if spell == "Cartn" else "%.12f" % fv
+                    rows.append([val[t] for t in lay])
+                out.append({"cell": cell, "site": {"names": names, "rows": rows}, "aniso": None, "stratum": "cartn-orders",
+                            "group": "cartn-orders-%d" % gi})
+    B2 = 8 * math.pi ** 2
+    for gi in range(2):
+        cell = [float("%.4f" % v) for v in (rng.uniform(3, 9), rng.uniform(3, 9), rng.uniform(3, 9), rng.uniform(70, 110), rng.uniform(70, 110), rng.uniform(70, 110))]
+        xyz = ["%.5f" % rng.uniform(0, 1) for _ in range(3)]
+        other = ["%.5f" % rng.uniform(0, 1) for _ in range(3)]
+        sites = []
+        for k, el in enumerate(["Na", "K", "Ca"]):
+            U = [rng.uniform(0.004, 0.05), rng.uniform(0.004, 0.05), rng.uniform(0.004, 0.05), rng.uniform(-0.004, 0.004), rng.uniform(-0.004, 0.004), rng.uniform(-0.004, 0.004)]
+            sites.append({"label": "%s%d" % (el, k + 1), "xyz": xyz if (gi == 0 or k < 2) else other, "occ": "%.3f" % rng.uniform(0.1, 0.5), "U": ["%.6f" % u for u in U]})
+        withadp = gi == 1
+        names = ["_atom_site_label", "_atom_site_fract_x", "_atom_site_fract_y", "_atom_site_fract_z", "_atom_site_occupancy"] + (["_atom_site_adp_type"] if withadp else [])
+        srows = [[s_["label"]] + s_["xyz"] + [s_["occ"]] + (["Uani"] if withadp else []) for s_ in sites]
+        for pi, perm in enumerate(itertools.permutations(range(3))):
+            for spell in ("U", "B"):
+                if spell == "B" and pi not in (1, 4):
+                    continue
+                an = ["_atom_site_aniso_label"] + ["_atom_site_aniso_%s_%s" % (spell, ij) for ij in ("11", "22", "33", "12", "13", "23")]
+                arows = [[sites[k]["label"]] + [(u if spell == "U" else "%.10f" % (float(u) * B2)) for u in sites[k]["U"]] for k in perm]
+                order = list(range(len(an)))
+                if pi % 2:
+                    rng.shuffle(order)
+                out.append({"cell": cell, "site": {"names": names, "rows": srows},
+                            "aniso": {"names": [an[i] for i in order], "rows": [[r[i] for i in order] for r in arows]},
+                            "stratum": "shared-site", "group": "shared-site-%d" % gi})
+    return out
+
+
 def row_stream(ck, ncases):
-    """random abstract blocks -> CIF text -> real reader (snapshot before expansion) vs the Lean model; and, for rows that satisfy the
-    hypotheses of `row_col_perm`, the same block with every loop's columns permuted must read the same on the real reader."""
+    """random abstract blocks -> CIF text -> real reader (snapshot before expansion) vs the Lean model; for rows that satisfy the
+    hypotheses of `row_col_perm`, the same block with every loop's columns (and the aniso rows) permuted must read the same on the
+    real reader; the members of a group of `row_special_blocks` must all read the same; the one-loop layouts outside the hypotheses."""
     import random
 
     rng = random.Random(ck.rng.random())
-    blocks = [row_gen_block(rng) for _ in range(ncases)]
+    blocks = row_special_blocks(rng) + [row_gen_block(rng) for _ in range(ncases)]
     lines = [row_model_line(b) for b in blocks]
     try:
         outs = common.driver(lines)
     except common.DriverBroken as e:
         outs = [None] * len(lines)
         ck.notes.append("driver unavailable for cifrow: %s" % str(e)[:300])
-    nerr = nperm = nok = 0
+    nerr = nperm = nok = ngroup = 0
     strata_seen = {}
+    group_first = {}
     for blk, ln, o in zip(blocks, lines, outs):
-        text = row_render(rng, blk, loops_first=rng.random() < 0.25)
+        special = "group" in blk
+        text = row_render(rng, blk, case=not special or rng.random() < 0.5, loops_first=rng.random() < 0.25)
         kind, real = row_real(text)
         strata_seen[blk["stratum"]] = strata_seen.get(blk["stratum"], 0) + 1
         ck.coverage["evaluations"] += 1
@@ -987,6 +1106,20 @@ def row_stream(ck, ncases):
         if kind == "exc":
             ck.fail("row:%s:exception" % blk["stratum"], "reading a rendered atom-site block raised %s (documented error: StructureFormatError)" % real, dict(repl, observed=real))
             continue
+        if special:
+            # spellings of one set of atoms: compared with each other on the real reader (also when the model is unavailable)
+            if kind != "ok":
+                ck.fail("row:%s:rejected" % blk["stratum"], "a valid atom-site block is rejected: %s" % real, dict(repl, observed=real))
+                continue
+            first = group_first.setdefault(blk["group"], (real, text))
+            if first[0] is not real:
+                ngroup += 1
+                dg = row_diff(first[0], real, tol=1e-8)
+                if dg:
+                    which = "Cartesian columns in another order / fractional coordinates" if blk["stratum"] == "cartn-orders" else "aniso rows in another order / B values"
+                    ck.fail("row:%s:spelling" % blk["stratum"], "two spellings of the same atoms (%s) read differently: %s" % (which, dg),
+                            dict(repl, other_cif=first[1], detail=dg, theorem="DS.Props.C07Row.cartn_vs_fract / row_col_perm / aniso_loop_order / B_vs_U"))
+                    continue
         if o is None:
             continue
         ck.coverage["traces_validated_against_impl"] += 1
@@ -1007,8 +1140,9 @@ def row_stream(ck, ncases):
                     dict(repl, expected=model, observed=real, detail=d))
             continue
         nok += 1
+        if special:
+            continue
         # column permutation on the real reader, where the theorem says it must not matter
-        flags0 = {}
         site_ok = all(row_ok(blk["site"]["names"], r, False) for r in blk["site"]["rows"])
         aniso_ok = True
         if blk["aniso"] is not None:
@@ -1056,10 +1190,60 @@ def row_stream(ck, ncases):
         if d:
             ck.fail("roworder:%s" % key, "two CIF texts that differ only in the order of the atom_site loop columns read differently (%s): %s" % (key, d),
                     {"kind": "roworder", "layout": key, "cif": t1, "other_cif": t2, "detail": d, "theorem": "DS.Props.C07Row.row_order_dependent_*"})
-    ck.coverage["row_stream"] = {"blocks": len(blocks), "agree": nok, "rejected_by_both": nerr, "column_permutations": nperm, "strata": strata_seen}
+    ck.coverage["row_stream"] = {"blocks": len(blocks), "agree_with_model": nok, "rejected_by_both": nerr, "column_permutations": nperm,
+                                 "spelling_group_comparisons": ngroup, "strata": strata_seen}
     if blocks and outs and outs[0] is not None:
-        ck.coverage["samples"] = list(ck.coverage.get("samples") or [])[:2] + [{"driver": lines[0][:200], "model": outs[0][:200]}]
+        ck.coverage["samples"] = list(ck.coverage.get("samples") or [])[:2] + [{"driver": lines[-1][:200], "model": outs[-1][:200]}]
     return nok
+
+
+def row_words_stream(ck):
+    """the string side of the setters: element symbol of `_tr_atom_site_type_symbol` / `_tr_atom_site_label` and the setter `_get_atom_setters`
+    selects for a data name, model (`cifrow.symbol`, `cifrow.item`) against the real static methods"""
+    from diffpy.structure import Atom
+    from diffpy.structure.parsers.p_cif import P_cif
+
+    words = sorted(set(ROW_TYPE_WORDS + ROW_LABEL_WORDS + ["", "1", "12-", "12-C", "12-c14+", "C4+x", "c4", "fE2+3", "O1-", "O-1", "-O", "+1", "N(3)", "Si_2",
+                                                           "H2O", "D2+", "7", "7-", "7-7", "aB1+2-", "Uiso", "?", ".", "xY", "X", "x", "a1-b", "0-H", "00-h1-"]))
+    names = ["_atom_site_label", "_atom_site_Label", "_ATOM_SITE_TYPE_SYMBOL", "_atom_site_fract_x", "_atom_site_Fract_Y", "_atom_site_fract_z", "_atom_site_Cartn_x",
+             "_atom_site_cartn_y", "_atom_site_CARTN_Z", "_atom_site_U_iso_or_equiv", "_atom_site_u_iso_or_equiv", "_atom_site_B_iso_or_equiv", "_atom_site_adp_type",
+             "_atom_site_thermal_displace_type", "_atom_site_occupancy", "_atom_site_aniso_label", "_atom_site_aniso_type_symbol", "_ignore", "_atom_site_ignore", "x",
+             "", "_atom_site_fract_w", "_atom_site_aniso_U_21", "_atom_site_aniso_u_12", "_atom_site_aniso_B_12", "_atom_site_aniso_b_33"] + ROW_ANISO_U + ROW_ANISO_B
+    # data names as PyCifRW's `keys()` delivers them: lower case (the reader is only ever handed such names)
+    names = sorted({n.lower() for n in names})
+    lines = ["cifrow.symbol " + _row_hex(w) for w in words] + ["cifrow.item " + n for n in names if n]
+    try:
+        outs = common.driver(lines)
+    except common.DriverBroken:
+        return
+    n = 0
+    for w, o in zip(words, outs):
+        n += 1
+        a = Atom()
+        P_cif._tr_atom_site_type_symbol(a, w)
+        b = Atom()
+        P_cif._tr_atom_site_label(b, w)
+        got = _row_unhex(o) if o.startswith("x") else o
+        if a.element != got or b.element != got or b.label != w:
+            ck.fail("row:symbol", "element symbol read from %r: type_symbol setter %r, label setter %r (label %r), row model %r" % (w, a.element, b.element, b.label, got),
+                    {"kind": "rowsymbol", "text": w, "expected": got, "observed": [a.element, b.element, b.label]})
+
+    class FakeLoop:
+        def __init__(self, k):
+            self._k = k
+
+        def keys(self):
+            return list(self._k)
+
+    real_names = [x for x in names if x]
+    fs = P_cif._get_atom_setters(FakeLoop(real_names))
+    for nm, f, o in zip(real_names, fs, outs[len(words):]):
+        n += 1
+        if f.__name__ != o and not (f is P_cif._tr_atom_site_adp_type and o == "_tr_atom_site_thermal_displace_type"):
+            ck.fail("row:item", "_get_atom_setters selects %s for the data name %r, the row model selects %s" % (f.__name__, nm, o),
+                    {"kind": "rowitem", "name": nm, "expected": o, "observed": f.__name__})
+    ck.coverage["evaluations"] += n
+    ck.coverage["traces_validated_against_impl"] += n
 
 
 def _row_permute(rng, lp, rows_too=False):
